@@ -19,7 +19,10 @@ const ELEMS: [&str; 4] = ["T24", "P8", "L200", "B3"];
 pub fn run(c: &mut Ctx) {
     c.run_scenarios(|c, idx, rng| {
         let m = crate::util::mix(idx);
-        if m % 3 < 2 {
+        if m % 4 == 3 {
+            let pair = PAIRS[((m / 4) % PAIRS.len() as u64) as usize];
+            for_pair!(pair, late_chaos_scenario(c, rng));
+        } else if m % 3 < 2 {
             let pair = PAIRS[((m / 3) % PAIRS.len() as u64) as usize];
             for_pair!(pair, map_scenario(c, rng));
         } else {
@@ -79,6 +82,45 @@ pub fn table_scenario<E: Elem>(c: &mut Ctx, rng: &mut Rng) {
     let len = d.t.len();
     let drained = d.t.drain().count();
     crate::check!(drained == len, "C05: table drain yielded {} elements, len() was {}", drained, len);
+    drop(d);
+    crate::plan::chaos_off();
+}
+
+/// Broken hashing sets in on a table that was built lawfully in a target state (tombstone-saturated,
+/// random control-byte layout, full, ...): entry-style and plain operations follow.
+pub fn late_chaos_scenario<K: Elem, V: Elem>(c: &mut Ctx, rng: &mut Rng) {
+    use crate::mapdrv::W_ENTRY;
+    use crate::props::c04::{build_state, Recipe, StateSpec};
+    let recipe = *rng.pick(&[Recipe::Saturated, Recipe::SaturatedRandom, Recipe::Layout, Recipe::Layout, Recipe::Full, Recipe::Tombstoned]);
+    let spec = StateSpec { plan: Plan::IdentThenChaos, salt: rng.next(), recipe, seed: rng.next(), size: rng.below(1000) as u32 };
+    crate::plan::chaos_late(false);
+    let mut d = build_state::<K, V>(&spec, c);
+    // the map was built under lawful (identity) hashing; from here on Hash lies
+    let eq_permille = *rng.pick(&[0u64, 0, 20, 200]);
+    let palette = *rng.pick(&[4u64, 16, 64]);
+    chaos_seed(rng.next(), eq_permille, palette);
+    crate::plan::chaos_late(true);
+    d.compare = false;
+    d.lawful = false;
+    d.validate_every = if crate::util::slow_lane() { 6 } else { 1 };
+    d.universe = ((d.model.len() as u32) * 2 + 8).min(K::ID_SPACE);
+    d.max_live = 400;
+    let mut desc = d.describe("C05 late chaos on a lawfully built state");
+    desc.set("recipe", Json::s(format!("{:?}", recipe)));
+    desc.set("eq_lies_permille", Json::i(eq_permille));
+    c.describe(desc);
+    c.bump("late_chaos_scenarios");
+    c.sig_parts(&[77, recipe as u64, eq_permille]);
+    let n_ops = if c.is_miri() { 20 } else { *rng.pick(&[10usize, 40, 120]) };
+    for i in 0..n_ops {
+        let w = if i % 2 == 0 { &W_ENTRY } else { &W_GENERAL };
+        if !d.step(c, rng, w) {
+            break;
+        }
+    }
+    let len = d.map.len();
+    let drained = d.map.drain().count();
+    crate::check!(drained == len, "C05: drain yielded {} elements, len() was {}", drained, len);
     drop(d);
     crate::plan::chaos_off();
 }
